@@ -87,12 +87,14 @@ Qed.
 (* witness 3: i8 multiplication is emitted as an `imul` on 8-bit registers, which does not exist *)
 
 Definition w3_p : sprog := zprog 8 2 [ZB 2 0 1] 2.
-Definition w3_alloc : vreg -> reg := alloc_of (the_func w3_p) [2; 1; 1; 1].
+Definition w3_f : vfunc := match c21_lower_v false w3_p with Some f => f | None => mkVfunc [] None end.
+Definition w3_alloc : vreg -> reg := alloc_of w3_f [2; 1; 1; 1].
 
+(* for the lowering that does not refuse 8-bit multiplication (c21_lower_v false) *)
 Theorem imul8_not_encodable :
-  exists p f alloc ver, c21_lower p = Some f /\ alloc_ok alloc f = true
+  exists p f alloc ver, c21_lower_v false p = Some f /\ alloc_ok alloc f = true
     /\ forallb encodable (c21_finish ver (sp_w p) alloc f) = false.
-Proof. exists w3_p, (the_func w3_p), w3_alloc, unrepaired. repeat split; vm_compute; reflexivity. Qed.
+Proof. exists w3_p, w3_f, w3_alloc, unrepaired. repeat split; vm_compute; reflexivity. Qed.
 
 (* every other width only produces instructions of the subset that exist *)
 Lemma encodable_shift : forall k i, encodable (shift_instr k i) = encodable i.
